@@ -11,6 +11,7 @@ CONSTANTS
   ContainMode = "ancestry"
   DestMode = "normalised"
   CopyMode = "content"
+  CollectOrder = "configs-then-denylist"
   DenyFactories = {"simple_file", "glob_file", "first_file", "foreach_collect", "simple_command", "command_with_args", "foreach_execute", "container_execute", "container_collect"}
   DenyMax = 3
 INVARIANT DenyRespected
